@@ -1,6 +1,8 @@
 """S16 — every public result with the real spatial index vs an index that answers every candidate search with all features."""
 from __future__ import annotations
 
+import math
+
 import multiprocessing as mp
 from fractions import Fraction as F
 
@@ -9,14 +11,30 @@ from harness.mapgen import to_float_lines, valid_maps
 from harness.valgen import T, area_for, gadgets, place
 
 
-def install_stub():
+_REAL_INTERSECTION = None
+
+
+def install_stub(stub=True):
+    """replace (stub=True) or RESTORE (stub=False) the spatial index query of this process: a pool worker runs several cases, and a stub left behind by one case would
+    turn the next "real index" run into a stub run (the twins would then always agree)"""
+    global _REAL_INTERSECTION
     import numpy as np
     from geopandas.sindex import SpatialIndex
+
+    if _REAL_INTERSECTION is None:
+        _REAL_INTERSECTION = SpatialIndex.intersection
 
     def everything(self, coordinates, *a, **k):
         return np.arange(self.size)
 
-    SpatialIndex.intersection = everything
+    SpatialIndex.intersection = everything if stub else _REAL_INTERSECTION
+
+
+def close_nodes(r_, t):
+    """two DIFFERENT nodes closer to each other than a few thresholds: not a crisp configuration (which nodes count as "at the end of a branch" then depends on which
+    neighbours the index happens to report)"""
+    pts = [(x, y) for x, y, _ in r_["nodes"]] if isinstance(r_, dict) and "nodes" in r_ else []
+    return any(0 < math.hypot(a[0] - b[0], a[1] - b[1]) < 5 * t for i_, a in enumerate(pts) for b in pts[i_ + 1:])
 
 
 def canon_val(out):
@@ -27,8 +45,7 @@ def run_validation_case(arg):
     wkts, stub = arg[0], arg[1]
     t_ = arg[2] if len(arg) > 2 else T
     import_fractopo()
-    if stub:
-        install_stub()
+    install_stub(bool(stub))
     import geopandas as gpd
     from shapely import wkt
 
@@ -44,8 +61,7 @@ def run_validation_case(arg):
 def run_extraction_case(arg):
     traces, area_wkt, t, circular, stub = arg
     import_fractopo()
-    if stub:
-        install_stub()
+    install_stub(bool(stub))
     import geopandas as gpd
     from shapely import wkt
     from shapely.geometry import LineString
@@ -161,8 +177,7 @@ def s16_extraction(ctx):
 def run_multiarea_case(arg):
     traces, area_wkts, t, stub = arg
     import_fractopo()
-    if stub:
-        install_stub()
+    install_stub(bool(stub))
     import geopandas as gpd
     from shapely import wkt
     from shapely.geometry import LineString
@@ -242,6 +257,9 @@ def s16_multiarea(ctx):
             res.nontrivial += 1
         res.distribution["rows=%d empty_rows=%d" % (len(mapped), mapped.count(False))] = res.distribution.get("rows=%d empty_rows=%d" % (len(mapped), mapped.count(False)), 0) + 1
         if real != stub:
+            if close_nodes(real, t) or close_nodes(stub, t):
+                res.skipped["nodes_closer_than_5_thresholds_not_crisp"] = res.skipped.get("nodes_closer_than_5_thresholds_not_crisp", 0) + 1
+                continue
             diff = [k_ for k_ in real if real[k_] != stub[k_]] if isinstance(real, dict) and isinstance(stub, dict) else "raised"
             both = isinstance(real, dict) and isinstance(stub, dict)
             res.disagreements.append(Disagreement("S16-multiarea", {"stream": "S16-multiarea", "traces": traces, "area_wkts": wkts, "t": t},
@@ -259,6 +277,8 @@ def replay(ctx, stream, case):
     if stream == "S16-multiarea":
         with mp.get_context("fork").Pool(2, maxtasksperchild=1) as pool:
             real, stub = pool.map(run_multiarea_case, [(case["traces"], case["area_wkts"], case["t"], s_) for s_ in (False, True)], chunksize=1)
+        if real != stub and (close_nodes(real, case["t"]) or close_nodes(stub, case["t"])):
+            return None  # not crisp (see close_nodes)
         return None if real == stub else Disagreement(stream, case, stub, real, True, "results differ")
     if stream == "S16-validation":
         with mp.get_context("fork").Pool(2, maxtasksperchild=1) as pool:
